@@ -122,9 +122,52 @@ def plan(tier, seed):
 def run_shard(spec, acc):
     rnd = random.Random(spec["seed"])
     fn = {"rules": case_rule, "layers": case_layer, "labels": case_labels, "scans": case_scan}[spec["kind"]]
+    if spec["kind"] == "scans":
+        internal_helper(rnd, acc)
     for i in range(spec["n"]):
         rho1, rho2 = renamings(rnd, identifiers_only=spec["kind"] == "scans")
         fn(rnd, rho1, rho2, acc, sample=(i % 151 == 0))
+
+
+def internal_helper(rnd, acc, forced=None):
+    """The documented helpers that decide "is this module internal" - is_internal_module(name, prefix) and
+    ExternalImportFilter(True, root_module_name, ()) - called directly the way their docstrings describe (the prefix is the
+    module's name, with or without a trailing dot): a module is internal iff it IS that module or extends its name by whole
+    dotted components."""
+    from pytestarch.eval_structure_generation.file_import import import_filter
+    from pytestarch.eval_structure_generation.file_import.import_types import AbsoluteImport
+
+    comps = ["a", "ab", "a_b", "aa", "a0", "A", "b", "app", "app_utils", "apps", "py"]
+    cases = forced["cases"] if forced else []
+    if not forced:
+        for _ in range(300):
+            depth = rnd.randint(1, 3)
+            root = ".".join(rnd.choice(comps) for _ in range(depth))
+            k = rnd.random()
+            if k < 0.3:
+                name = root + rnd.choice(comps)[:2]  # extends the last component by characters
+            elif k < 0.6:
+                name = root + "." + rnd.choice(comps)
+            elif k < 0.7:
+                name = root
+            elif k < 0.85:
+                name = root[:-1] if len(root) > 1 else root + "x"
+            else:
+                name = ".".join(rnd.choice(comps) for _ in range(rnd.randint(1, 3)))
+            cases.append((name, root))
+    for name, root in cases:
+        want = name == root or name.startswith(root + ".")
+        for prefix in (root, root + "."):
+            HUB.case = {"kind": "internal-helper", "cases": [[name, root]]}
+            got = import_filter.is_internal_module(name, prefix)
+            acc.evaluated()
+            acc.count("direct_calls_of_the_is_internal_helpers")
+            if bool(got) != want:
+                HUB.violation("C14", "is-internal-module:raw-prefix", f"is_internal_module({name!r}, {prefix!r}) says {got}", {"name": name, "prefix": prefix})
+        kept = import_filter.ExternalImportFilter(True, root, ()).filter([AbsoluteImport(root, name)])
+        acc.evaluated()
+        if bool(kept) != want:
+            HUB.violation("C14", "external-import-filter:raw-prefix", f"ExternalImportFilter(True, {root!r}, ()) {'keeps' if kept else 'drops'} the import of {name!r}", {"name": name, "root": root})
 
 
 def compare(kind, key, o1, o2, case, acc, names2):
@@ -452,6 +495,8 @@ def case_scan(rnd, rho1, rho2, acc, sample=False, forced=None):
 
 
 def replay(case, acc):
+    if case.get("kind") == "internal-helper":
+        return internal_helper(random.Random(0), acc, forced=case)
     rnd = random.Random(0)
     rho1 = {c: f"m{i}" for i, c in enumerate(ABSTRACT)}
     rho2 = case["rho2"]
